@@ -24,10 +24,10 @@ type Stub struct {
 	Namespaces map[string]map[string]string // name -> labels
 	Pods       map[string][]*corev1.Pod     // namespace -> pods, in the server's list order
 	// scripted failures: the n-th (1-based) GET / LIST request since the last Arm call fails
-	getFailAt, listFailAt map[int]string
-	gets, lists           int
+	getFailAt, listFailAt     map[int]string
+	gets, lists               int
 	getFailures, listFailures int
-	srv                   *httptest.Server
+	srv                       *httptest.Server
 }
 
 func New() *Stub {
